@@ -195,6 +195,24 @@ let do_lexq id =
     Printf.printf "%s chain=%s rest=%d\n" id
       (String.concat "." (Stdlib.List.map (fun b -> hex (string_of_bytes b)) l)) (int_len rest)
 
+(* ---- Planner.plan, schema scope (Qual/Replay.v) *)
+let do_replay id =
+  let deep = next_bool () in
+  let q = next_opt () in
+  let mode = n_of_int (next_int ()) in
+  let dev = next_bytes () in
+  let user = next_bytes () in
+  let no = next_int () in let objs = times no next_bytes in
+  let tab () = let n = next_bytes () in let e = next_bool () in { rt_name = n; rt_enum = e } in
+  let nc = next_int () in let cur = times nc tab in
+  let nd = next_int () in let des = times nd tab in
+  let nm = next_int () in let mods = times nm next_bytes in
+  let modified t1 _ = Stdlib.List.mem t1.rt_name mods in
+  match planner_plan modified deep q mode dev user objs cur des with
+  | PNoPlan -> Printf.printf "%s noplan\n" id
+  | PPlanned -> Printf.printf "%s planned\n" id
+  | PRejected r -> Printf.printf "%s rejected:%s\n" id (show_scope r)
+
 let () =
   let mode = if Array.length Sys.argv > 1 then Sys.argv.(1) else "builder" in
   (try
@@ -210,6 +228,7 @@ let () =
         | "scope" -> do_scope id
         | "skel" -> do_skel id
         | "lexq" -> do_lexq id
+        | "replay" -> do_replay id
         | m -> failwith ("mode " ^ m)
       end
     done
